@@ -564,7 +564,7 @@ Proof.
 Qed.
 
 (* a pass shows exactly the config's indices, shifted, in order *)
-Definition ev_idx (e : event) : Z := match e with SetEpoch x => x | Main _ i => i | Side _ _ i => i end.
+Definition ev_idx (e : event) : Z := match e with SetEpoch x => x | IterStart x => x | Main _ i => i | Side _ _ i => i end.
 Lemma emit_idx {E} (mk : bool -> Z -> E) (f : E -> Z) b : (forall fl i, f (mk fl i) = i) -> map f (emit mk b) = b.
 Proof.
   intros H. induction b as [|i b IH]; [reflexivity|].
